@@ -23,6 +23,12 @@ pub struct Known {
     pub class: String,
     #[serde(default)]
     pub message_contains: Vec<String>,
+    /// the finding applies only to sources of at least this length
+    #[serde(default)]
+    pub min_len: u64,
+    /// the finding applies only to wrapped iterators with one of these size-hint flavours
+    #[serde(default)]
+    pub hints: Vec<String>,
     pub what: String,
     #[serde(default)]
     pub commit: String,
@@ -61,12 +67,16 @@ pub fn match_known<'a>(
             && e.class == f.class
             && (e.kinds.is_empty() || e.kinds.contains(&kind))
             && e.message_contains.iter().all(|m| f.msg.contains(m))
+            && cfg.len as u64 >= e.min_len
+            && (e.hints.is_empty() || e.hints.contains(&format!("{:?}", cfg.hint)))
     })
 }
 
 /// (runs, workers) per property and tier.
 pub fn budget(prop: &str, tier: &str) -> (u64, usize) {
     let quick: u64 = match prop {
+        // the whole grid: every point sequentially and under C16_SCHEDULES_PER_POINT schedules
+        "C16" => crate::gen::c16_grid_size() * (crate::gen::C16_SCHEDULES_PER_POINT + 1),
         "C04" => 60_000,
         "C05" => 50_000,
         _ => 70_000,
@@ -74,6 +84,7 @@ pub fn budget(prop: &str, tier: &str) -> (u64, usize) {
     let env_runs = std::env::var("VERIF_RUNS").ok().and_then(|v| v.parse().ok());
     let runs = match (env_runs, tier) {
         (Some(r), _) => r,
+        (None, "thorough") if prop == "C16" => quick * 8,
         (None, "thorough") => quick * 20,
         _ => quick,
     };
@@ -126,7 +137,13 @@ pub fn check(prop: &str, tier: &str) -> i32 {
     // does not depend on the slicing
     let per = runs.div_ceil(nworkers as u64).max(1);
     let mut queue: Vec<Slice> = Vec::new();
-    let mut a = 0;
+    // VERIF_FROM: debugging aid, shifts the window of run indices
+    let offset: u64 = std::env::var("VERIF_FROM")
+        .ok()
+        .and_then(|v| v.parse().ok())
+        .unwrap_or(0);
+    let runs = runs + offset;
+    let mut a = offset;
     while a < runs {
         let b = (a + per).min(runs);
         queue.push(Slice {
